@@ -787,5 +787,8 @@ def expected_calls(unit, project):
         if m.body is not None:
             stmts(m.body)
         it = unit.toks[m.name_tok]
-        out.append([m.name, str(unit.toks[m.first].line), str(it.col), calls, str(unit.toks[m.first].col)])
+        # methods and interface methods are recorded at the position of their name, constructors at the
+        # start of the declaration
+        line = unit.toks[m.first].line if m.kind == "ctor" else it.line
+        out.append([m.name, str(line), str(it.col), calls, str(unit.toks[m.first].col)])
     return out
